@@ -15,6 +15,7 @@ const preludeBase = `(set-logic ALL)
 ; ---- dynamic values -------------------------------------------------------
 (declare-fun typeof (Val) Int)
 (declare-fun tmd (Int Int) Str)
+(declare-fun fsread (Str) Str)
 (declare-fun nil_val () Val)
 (assert (= (typeof nil_val) 0))
 (assert (forall ((v Val)) (! (=> (= (typeof v) 0) (= v nil_val)) :pattern ((typeof v)))))
